@@ -17,7 +17,7 @@ import vlib
 from props import runner_gen as G
 
 THEOREMS = ["C13_prefix", "C13_trace_prefix", "C13_trace_prefix_done", "C13_boundary", "C13_terminates",
-            "C13_by_command"]
+            "C13_by_command", "C13_nested_blind", "C13_nested", "C13_after_instruction"]
 FUEL = 400
 PROBE = 80          # un-halted steps looked at to find the boundaries of a program
 SCRATCH = os.path.join(vlib.ROOT, ".cache", "c13")
@@ -116,84 +116,79 @@ NESTED_WATCH = ["a", "b", "c", "d", "x", "r"]
 
 
 def nested_programs(rng, thorough):
-    """programs over the real SDK whose top-level instructions contain nested flows.  Each top-level
-    instruction of the main part is one model line t<j> (a scripted command with one result); `inner[j]` is the
-    harness-command log that instruction produces, `effects[j]` its effect on the watched variables."""
+    """programs over the real SDK whose top-level instructions contain nested flows, and the same programs for
+    the extracted model (RunnerNestedInst.v: every call site of a harness command is a scripted base command
+    <cmd>_<tag>; a condition function / eval / user alias is an alias-table entry whose body eval_instructions
+    runs; `if` answers Continue or a jump past its block)"""
     out = []
 
     def build(kinds, raiser_at, raiser, env, thread):
-        fdefs, main, inner, effects, results = [], [], [], [], []
+        fdefs, main, lines, cmds, aliases = [], [], [], {}, []
         tag = [0]
 
         def t():
             tag[0] += 1
             return str(tag[0])
 
-        def e(name, *args):
-            return "%s|%s" % (vlib.enc_str(name), vlib.enc_list(list(args)))
+        def site(c, tg):
+            """base command of one call site"""
+            if c == "hlog":
+                res = ("C", tg)
+            elif c in ("hraise", "hwait"):
+                res = ("!", ("C", "true"))
+            else:
+                res = ("!", ("E", tg))
+            cmds["%s_%s" % (c, tg)] = (False, [res])
+            return "%s_%s" % (c, tg)
 
-        def cond_fn(raise_cmd, verdict):
-            n = "cond%d" % (len(fdefs) + 1)
-            t1, t2, t3 = t(), t(), t()
-            body = ["fn " + n, "    d = hlog " + t1]
-            ilog = [e("hlog", t1)]
-            if raise_cmd:
-                body.append("    %s %s" % (raise_cmd, t2))
-                ilog.append(e(raise_cmd, t2))
-            body += ["    x = hlog " + t3, "    return " + verdict, "end"]
-            ilog.append(e("hlog", t3))
-            fdefs.extend(body)
-            return n, ilog, {"d": t1, "x": t3}
-
-        def plain(var):
-            tg = t()
-            main.append("%s = hlog %s" % (var, tg)); inner.append([e("hlog", tg)]); effects.append({var: tg}); results.append(("C", None))
+        def alias(body, ovr):
+            n = "nest%d" % (len(aliases) + 1)
+            aliases.append((n, ovr, body))
+            return n
 
         for j, kd in enumerate(kinds):
             is_r = j == raiser_at
             rc = raiser if is_r else None
-            mark = (lambda r: ("!", r)) if is_r else (lambda r: r)
             var = "abc"[j % 3]
-            if kd == "plain" and not is_r:
-                plain(var)
-            elif kd in ("plain", "direct"):
+            if kd in ("plain", "direct"):
+                c = rc if (is_r and rc) else "hlog"
                 tg = t()
-                if rc in ("hraisefail", "hwaitfail"):
-                    main.append("%s = %s %s" % (var, rc, tg)); inner.append([e(rc, tg)]); effects.append({var: "false"}); results.append(mark(("E", tg)))
-                else:
-                    c = rc or "hlog"
-                    main.append("%s = %s %s" % (var, c, tg)); inner.append([e(c, tg)])
-                    effects.append({var: "true" if rc else tg}); results.append(mark(("C", None)))
+                main.append("%s = %s %s" % (var, c, tg))
+                lines.append({"out": var, "cmd": site(c, tg), "args": [tg]})
             elif kd in ("if-true", "if-false"):
                 verdict = "true" if kd == "if-true" else "false"
                 inner_raiser = rc if rc in ("hraise", "hwait") else None
-                n, ilog, eff = cond_fn(inner_raiser, verdict)
+                n = "cond%d" % (len(aliases) + 1)
+                t1, t2, t3 = t(), t(), t()
+                fdefs += ["fn " + n, "    d = hlog " + t1]
+                body = [{"out": "d", "cmd": site("hlog", t1), "args": [t1]}]
+                if inner_raiser:
+                    fdefs.append("    %s %s" % (inner_raiser, t2))
+                    body.append({"cmd": site(inner_raiser, t2), "args": [t2]})
+                fdefs += ["    x = hlog " + t3, "    return " + verdict, "end"]
+                body.append({"out": "x", "cmd": site("hlog", t3), "args": [t3]})
                 main.append("if " + n)
-                at = len(main) - 1
-                inner.append(ilog); effects.append(eff); results.append(None)       # patched below
+                at = len(lines)
+                lines.append(None)                                   # patched below
                 tg = t()
-                main.append("    r = hlog " + tg); inner.append([e("hlog", tg)]); effects.append({"r": tg}); results.append(("C", None))
-                main.append("end"); inner.append([]); effects.append({}); results.append(("C", None))
-                res = ("C", None) if verdict == "true" else ("J", None, len(main))
-                results[at] = ("!", res) if (is_r and inner_raiser) else res
-            elif kd == "eval":
-                tg = t()
-                c = rc if rc in ("hraise", "hwait") else "hlog"
-                main.append("%s = eval %s %s" % (var, c, tg)); inner.append([e(c, tg)])
-                effects.append({var: "true" if c != "hlog" else tg}); results.append(mark(("C", None)) if c != "hlog" else ("C", None))
-            elif kd == "alias":
+                main.append("    r = hlog " + tg)
+                lines.append({"out": "r", "cmd": site("hlog", tg), "args": [tg]})
+                main.append("end")
+                lines.append(None)                                   # `end`: nothing to run at top level
+                ovr = ("C", None) if verdict == "true" else ("J", None, len(lines))
+                lines[at] = {"cmd": alias(body, ovr), "args": []}
+            elif kd in ("eval", "alias"):
                 tg = t()
                 c = rc if rc in ("hraise", "hwait") else "hlog"
-                main.append("%s = al_%s %s" % (var, c, tg)); inner.append([e(c, tg)])
-                effects.append({var: "true" if c != "hlog" else tg}); results.append(mark(("C", None)) if c != "hlog" else ("C", None))
+                main.append(("%s = eval %s %s" if kd == "eval" else "%s = al_%s %s") % (var, c, tg))
+                lines.append({"out": var, "cmd": alias([{"cmd": site(c, tg), "args": [tg]}], None), "args": []})
         pre = ["alias al_hlog hlog", "alias al_hraise hraise", "alias al_hwait hwait"]
         text = "\n".join(pre + fdefs + main) + "\n"
-        lines = [{"cmd": "t%d" % j} for j in range(len(main))]
-        cmds = {"t%d" % j: (False, [results[j]]) for j in range(len(main))}
         cmds[G.ON_ERROR] = (True, [("C", None)])
-        model = G.case_line("P", None, None, FUEL, lines, cmds, {}, "")
+        enc_al = "&".join("%s@%s@%s" % (vlib.enc_str(n), "N" if o is None else G.enc_res(o), G.enc_prog(bd)) for n, o, bd in aliases) if aliases else "-"
+        model = "\t".join(["M", str(FUEL), G.enc_prog(lines), G.enc_cmds(cmds), enc_al, vlib.enc_list(NESTED_WATCH)])
         impl = "\t".join(["N", env, "Y" if thread else "N", vlib.enc_str(text), vlib.enc_list(NESTED_WATCH)])
-        out.append({"text": text, "model": model, "impl": impl, "inner": inner, "effects": effects, "env": env, "thread": thread,
+        out.append({"text": text, "model": model, "impl": impl, "env": env, "thread": thread,
                     "kinds": ["%s:%s" % (kinds[raiser_at], raiser)]})
 
     KINDS = ["plain", "if-true", "if-false", "eval", "alias"]
@@ -369,14 +364,9 @@ def run(ck):
         mf, f = m.split("\t"), i.split("\t")
         exp = None
         if len(mf) == 6 and mf[0] == "OK":
-            ran = [int(vlib.dec_str(e.split("|")[0])[1:]) for e in log_entries(mf[4]) if not e.startswith(vlib.enc_str(G.ON_ERROR) + "|")]
-            elog, evars = [], {}
-            for j in ran:
-                elog += c["inner"][j]
-                evars.update(c["effects"][j])
-            exp = ("OK", ";".join(elog) if elog else "-",
-                   ";".join("%s=%s" % (vlib.enc_str(v), G.enc_opt(evars.get(v))) for v in NESTED_WATCH),
-                   "-" if c["env"] == "0" else ("T" if mf[1] == "HALT" else "F"))
+            # the model's base commands are named <harness command>_<tag>: one per call site
+            elog = ";".join("%s|%s" % (vlib.enc_str(vlib.dec_str(e.split("|")[0]).rsplit("_", 1)[0]), e.split("|")[1]) for e in log_entries(mf[4])) or "-"
+            exp = ("OK", elog, mf[5], "-" if c["env"] == "0" else ("T" if mf[1] == "HALT" else "F"))
         got = (f[0], f[4], f[5], f[6]) if len(f) == 7 else None
         if exp is None or got != exp:
             found = True
@@ -386,7 +376,7 @@ def run(ck):
                             "in-flight top-level instruction must complete, no further top-level instruction may start",
                     "script": c["text"], "env": "Some(flag)" if c["env"] == "S" else "None (default Env)", "second_thread": c["thread"],
                     "expected(status, harness-command log, watched variables, flag)": exp, "implementation": i,
-                    "model(top-level instructions t0.. as scripted commands)": m,
+                    "model(status, reason, -, -, base-command log, watched variables)": m,
                     "wire": c["impl"], "wire_model": c["model"], "theorems": ["C13_prefix", "C13_boundary", "C13_by_command"], "seed": ck.seed,
                     "replay_cmd": "printf '%s\\n' | .cache/cargo-target/release/c13" % c["impl"].replace("\t", "\\t")})
         elif len(log_entries(f[4])) >= 2:
